@@ -3,6 +3,7 @@
 mod envcheck;
 mod crashx;
 mod dsp;
+mod e2e;
 mod envx;
 mod formats;
 mod graphx;
@@ -42,6 +43,7 @@ fn main() {
             "maps" => maps::replay_json(&v["replay"]),
             "formats" => formats::replay_json(&v["replay"]),
             "dsp" => dsp::replay_json(&v["replay"]),
+            "e2e" => e2e::replay_json(&v["replay"]),
             e => Err(format!("unknown engine {e:?}")),
         };
         match r {
@@ -71,6 +73,7 @@ fn main() {
         "maps" => maps::run(tier, shard),
         "formats" => formats::run(tier, shard),
         "dsp" => dsp::run(tier, shard),
+        "e2e" => e2e::run(tier, shard),
         _ => usage(),
     };
     rep.emit();
